@@ -90,10 +90,42 @@ func planWriters(P *Prog) map[*ssa.Function][]ssa.Instruction {
 						out[fn] = append(out[fn], ins)
 					}
 				}
+			case ssa.CallInstruction:
+				// a library object embedded in the plan (atomic.Value, sync.Once, sync.Map …)
+				// written through its own pointer-receiver method
+				if w, _ := planLibraryWrite(x, fn); w {
+					out[fn] = append(out[fn], ins)
+				}
 			}
 		}
 	}
 	return out
+}
+
+// planLibraryWrite: ins calls a pointer-receiver method of a type declared outside the module
+// on (part of) a field of a plan object the function did not allocate, and the method is not a
+// pure reader.
+func planLibraryWrite(ci ssa.CallInstruction, fn *ssa.Function) (bool, string) {
+	c := ci.Common()
+	if c.IsInvoke() || len(c.Args) == 0 || c.Signature().Recv() == nil {
+		return false, ""
+	}
+	sc := c.StaticCallee()
+	if sc == nil || inModule(sc) {
+		return false, ""
+	}
+	if _, isPtr := c.Signature().Recv().Type().(*types.Pointer); !isPtr {
+		return false, ""
+	}
+	switch sc.Name() {
+	case "Load", "Range", "Len", "String":
+		return false, ""
+	}
+	root, touches, what := planWriteInfo(c.Args[0])
+	if !touches || isFreshRoot(root, fn) {
+		return false, ""
+	}
+	return true, what + " via " + calleeName(c)
 }
 
 func rulePlanImmutable(r *Run) {
@@ -140,6 +172,8 @@ func rulePlanImmutable(r *Run) {
 				_, _, what = planWriteInfo(x.Addr)
 			case *ssa.MapUpdate:
 				what = "ScrubFields[…]"
+			case ssa.CallInstruction:
+				_, what = planLibraryWrite(x, fn)
 			}
 			if C[fn] {
 				r.OK(rule, fnName(fn), "write "+what, r.P.pos(ins.Pos()), "writer belongs to the construction set (reachable from SequentialPlanner.Plan)")
@@ -221,13 +255,15 @@ func ruleCacheKey(r *Run) {
 	for _, ret := range returnsOf(hash) {
 		v := retVals(ret)[0]
 		depSel, depOp := false, false
+		// on every path (a key that is built from the selection set in one branch and from
+		// something else in the other does not depend on it)
 		for _, s := range selCalls {
-			if dependsOn(v, s) {
+			if mustDependOn(v, s) {
 				depSel = true
 			}
 		}
 		for _, o := range opLoads {
-			if dependsOn(v, o) {
+			if mustDependOn(v, o) {
 				depOp = true
 			}
 		}
